@@ -167,6 +167,7 @@ let rec parse_goal (e : sexp) : goal =
   | L (A "conj" :: gs) -> GConj (List.map parse_goal gs)
   | L (A "fresh" :: L xs :: gs) -> GFresh (List.map (fun x -> intern (atom x)) xs, List.map parse_goal gs)
   | L (A "cond" :: cs) -> GCond (parse_body cs)
+  | L [A "reuse"; n; g] -> let g' = parse_goal g in GConj (List.init (int_of_string (atom n)) (fun _ -> g'))
   | L (A "disj" :: A _ :: cs) -> GCond (parse_body cs)   (* the binary-disjunction API: the same answers as conde (multiset) *)
   | L (A "conda" :: cs) -> GConda (parse_body cs)
   | L (A "condu" :: cs) -> GCondu (parse_body cs)
